@@ -240,7 +240,9 @@ def check_apply(ctx):
     from mitxgraders.exceptions import ConfigError
     rng = ctx.rng
     answers = ({'expect': 'a', 'grade_decimal': 1, 'msg': ''}, {'expect': 'b', 'grade_decimal': 0.5, 'msg': 'half\nline'},
-               {'expect': 'c', 'grade_decimal': 0.25, 'msg': ''}, {'expect': 'd', 'grade_decimal': 0, 'msg': 'zero'})
+               {'expect': 'c', 'grade_decimal': 0.25, 'msg': ''}, {'expect': 'd', 'grade_decimal': 0, 'msg': 'zero'},
+               # author-pinned ok on full-credit answers: a reduced grade must have its ok RECOMPUTED, whatever was pinned
+               {'expect': 'e', 'grade_decimal': 1, 'ok': False, 'msg': 'pinned False'}, {'expect': 'f', 'grade_decimal': 1, 'ok': 'partial', 'msg': ''})
     scheds = [sched_desc('linear', after=1, steps=4, min='1/5'), sched_desc('linear', after=2, steps=3, min='1/2'),
               sched_desc('linear', after=1, steps=1, min='0'), sched_desc('linear', after=3, steps=6, min='1'),
               sched_desc('geometric', factor='3/4'), sched_desc('geometric', factor='1/2'), sched_desc('geometric', factor='0'),
@@ -254,7 +256,7 @@ def check_apply(ctx):
         scheds.append(sched_desc('table', tab=tab, ints=ints))
     attempts = [None, -2, 0, 1, 2, 3, 4, 5, 6, 7, 9, 11, 13]
     shapes = ['single', 'list2', 'list3', 'singlelist']
-    inputs1 = ['a', 'b', 'c', 'd', 'zz']
+    inputs1 = ['a', 'b', 'c', 'd', 'zz', 'e', 'f']
     asks, meta = [], []
     combos = list(itertools.product(range(len(scheds)), [True, False], attempts, shapes))
     if ctx.quick:
